@@ -61,7 +61,8 @@ type DAW struct {
 	TPMVer  string   `json:",omitempty"` // tpm: value of "ver" ("" = absent)
 	TPM     *TPMSpec `json:",omitempty"` // tpm: build certInfo / pubArea / sig (nil: statement has ver and x5c only)
 
-	facts string // model fields, filled by build
+	facts  string            // model fields, filled by build
+	served *provisioner.ACME // e2e stage
 }
 
 var (
@@ -175,6 +176,9 @@ func (w *DAW) sign(key crypto.Signer) []byte {
 // build makes the request payload and the provisioner, and records the model's facts.
 func (w *DAW) build(k *Case) ([]byte, acme.Provisioner) {
 	prov := w.provisioner()
+	if w.served != nil { // e2e stage: the provisioner the authority serves
+		prov = w.served
+	}
 	payload := w.payload()
 	w.facts = w.extract(k, payload, prov)
 	return payload, prov
@@ -497,7 +501,7 @@ var daMuts = []string{
 	"roots-other", "roots-none", "sysca-noroots", "sysca-noroots", "sysca-configured", "serial-other", "serial-absent", "serial-malformed", "serial-trailing", "serial-prefix", "key-p384", "key-rsa", "key-ed25519",
 	"fmt-disabled", "fmt-unknown", "fmt-case", "fmt-unknown-enabled", "payload-notjson", "payload-errfield", "payload-badb64", "payload-emptyobj", "payload-bracesobj",
 	"payload-notcbor", "payload-cborwrongtype", "payload-noattobj", "authz-missing", "authz-dbfail", "authz-other-account", "authz-other-account",
-	"nonce-absent", "nonce-other-token", "nonce-keyauth", "nonce-empty", "nonce-trunc", "udid-only", "serial-only", "ids-none", "ids-swapped-case",
+	"nonce-absent", "nonce-other-token", "nonce-keyauth", "nonce-empty", "nonce-trunc", "nonce-long33", "nonce-b64", "udid-only", "serial-only", "ids-none", "ids-swapped-case",
 	"tpm-nover", "tpm-ver1", "tpm-nox5c", "tpm-noroots", "tpm-akcert",
 	"tpm-exact", "tpm-exact", "tpm-exact", "tpm-extra-empty", "tpm-extra-prefix1", "tpm-extra-prefix20", "tpm-extra-prefix31", "tpm-extra-long33",
 	"tpm-extra-zero32", "tpm-extra-suffix20", "tpm-extra-empty-other-thumb", "tpm-no-pids", "tpm-other-pid", "tpm-two-pids", "tpm-other-thumb", "tpm-other-token", "tpm-token-only",
@@ -508,7 +512,9 @@ var daMuts = []string{
 
 func genDA(r *c.Rng, k *Case) {
 	k.Typ = "da"
-	k.Value = c.Pick(r, []string{"12345678", "7", "0", "serial-number", "udid-0001", "C02XK1", "-5", "007"})
+	if !k.fixedID {
+		k.Value = c.Pick(r, []string{"12345678", "7", "0", "serial-number", "udid-0001", "C02XK1", "-5", "007"})
+	}
 	w := &DAW{Roots: "ca", X5c: "ok", Key: "p256", Sig: "ok"}
 	k.DA = w
 	ka := expectedKeyAuth(k.Token, k.Acct)
@@ -524,7 +530,12 @@ func genDA(r *c.Rng, k *Case) {
 	} else {
 		w.Format = "step"
 		if _, err := strconv.Atoi(k.Value); err != nil || strconv.Itoa(mustAtoi(k.Value)) != k.Value {
-			k.Value = c.Pick(r, []string{"12345678", "7", "0", "-5"})
+			if k.fixedID {
+				apple, w.Format = true, "apple" // a non-decimal identifier cannot be a YubiKey serial
+				w.ASerial, w.AUDID, w.HasNonc, w.Nonce = k.Value, "udid-"+k.Value, true, sha(k.Token)
+			} else {
+				k.Value = c.Pick(r, []string{"12345678", "7", "0", "-5"})
+			}
 		}
 		w.Serial = k.Value
 	}
@@ -595,6 +606,10 @@ func genDA(r *c.Rng, k *Case) {
 		w.Nonce = []byte{}
 	case "nonce-trunc":
 		w.Nonce = sha(k.Token)[:31]
+	case "nonce-long33":
+		w.Nonce = append(sha(k.Token), 0)
+	case "nonce-b64":
+		w.Nonce = []byte(digestB64(k.Token))
 	case "udid-only":
 		w.ASerial, w.AUDID = "", k.Value
 	case "serial-only":
